@@ -12,6 +12,21 @@ CLAIMS = {
  "C18": ("model_checking", "Sequential: TLC explores all cache histories (C18_Read, C18_Isolation, C18_Monotone with a history variable); every transition of the cache and dominance graphs is replayed on SimpleCache / SimpleDominanceChecker and validated by TraceStores.tla. Concurrent: real-thread phases (2..16 threads) are logged as invocation/response histories and TLC searches a linearisation against the sequential specification (TraceLin.tla), followed by a quiescent read-back.",
          "6.C18", "TLA+ sequential specification + linearisability checking of real-thread histories by TLC"),
 }
+
+SEQTXT = "Real SequentialSolver runs are recorded event by event (fringe, cache, dominance, compilations, outcome) and TLC replays each run through SeqBnB.tla / Fringe.tla / ThresholdCache.tla / DDContract.tla, evaluating the property against the declarative oracle of DPModel.tla (optimum, HStar, feasibility) on the very instance that was solved. "
+CLAIMS.update({
+ "C01": ("model_checking", SEQTXT + "C01: uninterrupted runs over all configurations terminate (watchdog), report is_exact and the oracle's optimum (no value iff infeasible).", "6.C01", "TLA+ trace validation of real solver runs against SeqBnB/DPModel (oracle = declarative optimum)"),
+ "C02": ("model_checking", SEQTXT + "C02: the outcome of every run (uninterrupted, warm-started, cut at every poll index, long-arc) is checked for solution feasibility by replay through DPModel and for value/lb/ub/Completion consistency.", "6.C02", "TLA+ trace validation of solver outcomes against DPModel!FeasibleSolution"),
+ "C05": ("model_checking", SEQTXT + "C05: the run is repeated with the cutoff firing at every poll index k=1..K+1; each outcome must satisfy lb <= Opt <= ub, solution feasible with value lb, exact only if optimal.", "6.C05", "cutoff-point enumeration on the real solver + TLA+ trace validation against the oracle"),
+ "C06": ("model_checking", "Real compilations (LEL, frontier, pooled) in isolation over instances x reachable roots x widths x incumbents x types x histories; TLC checks each outcome against DDContract.tla (C06 clauses) with the oracle HStar.", "6.C06", "TLA+ contract (DDContract.tla) evaluated by TLC on recorded compilations"),
+ "C07": ("model_checking", "As C06, for restricted and exact-mode compilations (C07 clauses of DDContract.tla).", "6.C07", "TLA+ contract (DDContract.tla) evaluated by TLC on recorded compilations"),
+ "C08": ("model_checking", "As C06, for the drained cut-sets of inexact relaxed compilations: exactness of each node by replay, progress, bound validity, coverage of every completion that beats incumbent and best exact value (enumerated by TLC).", "6.C08", "TLA+ contract (DDContract.tla) evaluated by TLC on recorded cut-sets"),
+ "C09": ("model_checking", SEQTXT + "C09: every configuration is run without and with the cache (and cache+dominance); outcomes must agree and the route monitor C09_RouteExists is evaluated by TLC at every pop on the rebuilt threshold table and fringe.", "6.C09", "TLA+ trace validation with step-wise route invariant over rebuilt cache + fringe state"),
+ "C10": ("model_checking", "Component level: TLC explores all query histories of DominanceStore.tla (Pareto/antichain invariants), every transition replayed on SimpleDominanceChecker and validated (verdict, threshold soundness, comparator). Solver level: runs without/with the checker must agree (TraceSeq).", "6.C10", "TLA+ model checking of the store + trace validation of real checker and paired solver runs"),
+ "C14": ("model_checking", SEQTXT + "C14: warm starts from the oracle's witness solutions (optimal, worst, sequences of two, ties); set_primal semantics and final value = max(primal, Opt) with is_exact.", "6.C14", "TLA+ trace validation of warm-started runs"),
+ "C15": ("model_checking", SEQTXT + "C15: long-arc models, plain diagram vs pooled (cache off/on): termination, same optimum, default-completed solution feasible.", "6.C15", "TLA+ trace validation of paired plain/pooled runs on long-arc models"),
+ "C19": ("model_checking", SEQTXT + "C19: cutoff series k=1..K+1; consecutive outcomes must be monotone (lb non-decreasing, ub non-increasing) and the last one exact with both bounds at the optimum.", "6.C19", "cutoff-point enumeration + TLA+ trace validation of consecutive outcomes"),
+})
 REASONS = {}
 checks = []
 for p in props:
